@@ -127,7 +127,7 @@ def generate(tier):
             from .c04 import resolve
             if len(set(resolve(d))) != n:
                 continue
-            for repr in ((None, 'u8', 'C, u8') if unit_only else ('u8', 'i16')):
+            for repr in ((None, 'u8', 'u16') if unit_only else ('u8', 'i16', 'C, u8')):
                 for assign in assignments(sh, 'cim') if not unit_only else [tuple('' for _ in vs)]:
                     cases.append(build(sh, assign, 'H', repr=repr, discr=d))
     for sh in (S.Shape('struct', [S.Fields('n', 2)]), S.Shape('struct', [S.Fields('t', 3)]), S.Shape('enum', [T1, N1])):
